@@ -16,6 +16,7 @@ mod probes;
 mod shapes;
 mod sigs;
 mod targets;
+mod threads;
 mod times;
 mod worker;
 
@@ -66,6 +67,10 @@ pub fn dispatch(req: &Value) -> Value {
         "panic" => match serde_json::from_value::<panics::PanicCase>(req["case"].clone()) {
             Ok(c) => serde_json::to_value(panics::execute(&c)).unwrap(),
             Err(e) => json!({"harness_error": format!("bad panic case: {e}")}),
+        },
+        "threads" => match serde_json::from_value::<threads::ThreadCase>(req["case"].clone()) {
+            Ok(c) => serde_json::to_value(threads::execute(&c)).unwrap(),
+            Err(e) => json!({"harness_error": format!("bad thread case: {e}")}),
         },
         "ping" => json!({"pong": true}),
         _ => json!({"harness_error": format!("unknown op {op}")}),
@@ -298,6 +303,14 @@ fn cmd_panic(prop: &str) -> i32 {
     rec.finish(&out_path())
 }
 
+fn cmd_threads(prop: &str) -> i32 {
+    let mut rec = Recorder::new(prop, "n-threads", "N: generated scripts for 2..8 real threads (1..12 ops each: Injector{install a thread-specific fake on the shared function, n calls, exit by drop or panic} | Preventer{n calls, exit by drop or panic} | Spin) released by a barrier, plus a generated pause plan (up to 4 (interposed call kind, ordinal) points at which the thread inside an installation or inside the injector's drop waits up to 0.1-2 ms or until another thread reports an acquisition); oracle: measured holders <= 1 at all times (measured period is a subset of the true one), a preventer sees only the original value, injector t sees only its own fake, no acquisition/release panics, all scripts finish (a proven futex deadlock is a violation, any other overrun inconclusive); non-trivial = run with >= 1 contended acquisition and both guard kinds and both exit paths; distinct by scripts");
+    rec.assumptions.push("schedules are sampled (OS scheduler + widened windows), not enumerated".into());
+    let n = cases(1600, 24_000);
+    run_sharded(&mut rec, 4, n, shards().min(4), "threads", Value::Null, Duration::from_secs(40), threads::strategy, threads::judge, |c| json!({"ThreadCase": c}));
+    rec.finish(&out_path())
+}
+
 fn cmd_sig(prop: &str) -> i32 {
     if prop == "C10" {
         let mut rec = Recorder::new(prop, "n-boolsig", "N: generated signature strings (type grammar rendered in type_name style; return types biased to renderings that merely end in `-> bool`: nested fn pointers, &dyn Fn() -> bool, raw pointers to fn types, and look-alikes Option<bool>, (bool,), [bool; 1], &bool) passed through FuncPtr::new + will_return_boolean(v); oracle (from the generated structure, never by parsing): accepted iff the top-level return type is exactly bool; refusal = panic with no interposed call and no byte changed; accepted => the call returns v; non-trivial = return type textually ending in `-> bool` without being bool, or bool behind >= 3 parameters; distinct by (string, value)");
@@ -385,6 +398,18 @@ fn cmd_replay(path: &str) -> i32 {
         let c: panics::PanicCase = serde_json::from_value(c.clone()).expect("PanicCase");
         let ex = w.exec(&json!({"op": "panic", "case": c}), Duration::from_secs(120));
         panics::judge(&mut rec, &c, ex, &hello)
+    } else if let Some(c) = case.get("ThreadCase") {
+        let c: threads::ThreadCase = serde_json::from_value(c.clone()).expect("ThreadCase");
+        // schedules are not deterministic: a saved script is re-run 50 times
+        let mut r = Ok(());
+        for _ in 0..50 {
+            let ex = w.exec(&json!({"op": "threads", "case": c}), Duration::from_secs(40));
+            r = threads::judge(&mut rec, &c, ex, &hello);
+            if r.is_err() {
+                break;
+            }
+        }
+        r
     } else if let Some(c) = case.get("SigCase") {
         let c: sigs::SigCase = serde_json::from_value(c.clone()).expect("SigCase");
         let ex = w.exec(&json!({"op": "sig", "case": c}), Duration::from_secs(30));
@@ -430,6 +455,7 @@ fn main() {
         "hist" => cmd_hist(prop.as_deref().unwrap_or("C02")),
         "probe" => cmd_probe(prop.as_deref().unwrap_or("C13")),
         "sig" => cmd_sig(prop.as_deref().unwrap_or("C09")),
+        "threads" => cmd_threads(prop.as_deref().unwrap_or("C04")),
         "panic" => cmd_panic(prop.as_deref().unwrap_or("C05")),
         "times" => cmd_times(prop.as_deref().unwrap_or("C06")),
         "layout" => cmd_layout(prop.as_deref().unwrap_or("C11")),
